@@ -6,8 +6,11 @@ package app
 // account - and every other module account the application registers - is on it.
 
 import (
+	sdk "github.com/cosmos/cosmos-sdk/types"
 	authtypes "github.com/cosmos/cosmos-sdk/x/auth/types"
+	"github.com/ethereum/go-ethereum/common"
 
+	evmtypes "github.com/haqq-network/haqq/x/evm/types"
 	ucdaotypes "github.com/haqq-network/haqq/x/ucdao/types"
 	zz "github.com/haqq-network/haqq/zzverif"
 )
@@ -18,6 +21,21 @@ func VerifC12_DaoAccountBlocked() {
 	zz.Assert(blocked[authtypes.NewModuleAddress(ucdaotypes.ModuleName).String()], "the ucdao module account cannot receive coins outside MsgFund: it is on the bank's blocked-address list")
 	for name := range GetMaccPerms() {
 		zz.Assert(blocked[authtypes.NewModuleAddress(name).String()], "every registered module account is on the blocked-address list")
+	}
+	zz.Reach("end")
+}
+
+// VerifC02_PrecompilesBlocked: a direct call into a stateful precompile with value attached would make the signer's account
+// journal-dirty around Cosmos-side balance changes the precompile does not mirror (self-bond of createValidator, reward
+// payouts): the final Commit would mint or burn the difference. What stops it is the bank's blocked-address list - the value
+// transfer to the precompile address fails at the precompile's opening flush. Every available precompile address is on the
+// list, under the chain's own address prefix.
+func VerifC02_PrecompilesBlocked() {
+	a := &Haqq{}
+	blocked := a.BlockedAddrs()
+	for _, hex := range evmtypes.AvailableEVMExtensions {
+		addr := sdk.MustBech32ifyAddressBytes("haqq", common.HexToAddress(hex).Bytes())
+		zz.Assert(blocked[addr], "every available precompile address is on the bank's blocked-address list (keyed by its haqq1... address)")
 	}
 	zz.Reach("end")
 }
